@@ -297,6 +297,8 @@ struct Deserializer<'de> {
     // field_name tells deserialize_identifier which field name to process.
     // This field should always be set by set_field_name function.
     field_name: Option<SharedLabel>,
+    // Set together with field_name when the field only exists on the wire and its value is skipped.
+    skip_field: bool,
     // Indicates whether to deserialize with IDLValue.
     // It only affects the field id generation in enum type.
     is_untyped: bool,
@@ -321,6 +323,7 @@ impl<'de> Deserializer<'de> {
             expect_type: TypeInner::Unknown.into(),
             gamma: Gamma::default(),
             field_name: None,
+            skip_field: false,
             is_untyped: false,
             config: config.clone(),
             recursion_depth: crate::utils::RecursionDepth::new(),
@@ -1419,7 +1422,14 @@ impl<'de> de::Deserializer<'de> for &mut Deserializer<'de> {
     where
         V: Visitor<'de>,
     {
+        let skip_field = replace(&mut self.skip_field, false);
         match self.field_name.take() {
+            // IDLValue has no field to ignore: tell its visitor by a unit key, so that a real
+            // field named "_" is not mistaken for a skipped one.
+            Some(_) if skip_field && self.is_untyped => {
+                self.add_cost(1)?;
+                visitor.visit_unit()
+            }
             Some(l) => match l.as_ref() {
                 Label::Named(name) => {
                     self.add_cost(name.len())?;
@@ -1711,6 +1721,7 @@ impl<'de> de::MapAccess<'de> for Compound<'_, 'de> {
                             }
                             Ordering::Greater => {
                                 self.de.set_field_name(Label::Named("_".to_owned()).into());
+                                self.de.skip_field = true;
                                 self.de.wire_type = w.ty.clone();
                                 self.de.expect_type = TypeInner::Reserved.into();
                                 *wire_idx += 1;
@@ -1719,6 +1730,7 @@ impl<'de> de::MapAccess<'de> for Compound<'_, 'de> {
                     }
                     (None, Some(_)) => {
                         self.de.set_field_name(Label::Named("_".to_owned()).into());
+                        self.de.skip_field = true;
                         self.de.wire_type = wire_fields[*wire_idx].ty.clone();
                         self.de.expect_type = TypeInner::Reserved.into();
                         *wire_idx += 1;
